@@ -42,10 +42,68 @@ def _special_call_pattern(p: ast.AST) -> str | None:
     return None
 
 
+def run_semantic(ctx: Ctx) -> set[str]:
+    """The two known special-form handlers, interpreted on token ASTs: `dagger()`, `control(c)`, `power(n)` as `with` items and
+    `comptime(v)` / `py(v)` as expressions -- each once as written and once with an extra keyword argument.  Decided: the form
+    with the keyword is rejected (an error is raised), the form without is accepted.  Returns the qualified names of the
+    handlers that were decided (their arms need no path argument about `.keywords`)."""
+    from ..absint.astmodel import N
+    from ..absint.minieval import Unsupported
+    from ..absint.pyeval import PyEval, Raised, Tok
+    idx = ctx.idx
+    decided: set[str] = set()
+
+    def call(name, nargs, kw):
+        return N("Call", func=N("Name", id=name), args=[N("Name", id=f"a{i}") for i in range(nargs)],
+                 keywords=[N("keyword", arg="ignored", value=N("Constant", value=True))] if kw else [])
+
+    hooks = {nm: (lambda nd, e, env, nm=nm: Tok(nm, __ident__=1)) for nm in ("Dagger", "Control", "Power", "ComptimeExpr", "UnsupportedError", "WrongNumberOfArgsError",
+                                                                              "UnknownModifierError", "EmptyComptimeExprError", "Span")}
+    hooks.update({"to_span": lambda nd, e, env: Tok("span", start=Tok("start"), end=Tok("end")), "with_loc": lambda nd, e, env: e.ev(nd.args[1], env)})
+    jobs = []
+    try:
+        hw = idx.method("CFGBuilder", "_handle_withitem", "guppylang_internals.cfg.builder")
+        jobs += [(hw, f"{nm}", lambda c, hw=hw: {hw.node.args.args[0].arg: Tok("builder", __classes__=hw.cls.mro(), __ident__=1),
+                                                 hw.node.args.args[1].arg: Tok("withitem", context_expr=c, optional_vars=None, __ident__=1)}, nm, k)
+                 for nm, k in (("dagger", 0), ("control", 1), ("power", 1))]
+    except Exception:  # noqa: BLE001
+        pass
+    ice = idx.funcs.get("guppylang_internals.cfg.builder.is_comptime_expression")
+    if ice is not None:
+        jobs += [(ice, nm, lambda c, ice=ice: {ice.node.args.args[0].arg: c}, nm, 1) for nm in ("comptime", "py")]
+    per_func: dict[str, list] = {}
+    for f, form, mkenv, nm, nargs in jobs:
+        key = f"{f.qualname}#special-form[{form}]-rejects-keywords"
+        bad = []
+        try:
+            for kw in (False, True):
+                try:
+                    out = PyEval(idx, f.module.name, max_depth=6).run(f.node.body, {**hooks, **mkenv(call(nm, nargs, kw))})
+                    raised = str(out[1]) if out[0] == "raise" else None
+                    accepted = out[0] == "return" and out[1] is not None
+                except Raised as e:
+                    raised, accepted = e.cls or str(e), False
+                if kw and raised is None:
+                    bad.append({"call": f"{nm}(…, ignored=True)", "outcome": "accepted", "should_be": "rejected (keyword arguments are not supported)"})
+                if not kw and not accepted:
+                    bad.append({"call": f"{nm}(…)", "outcome": raised or "not recognised", "should_be": "accepted"})
+        except Unsupported as e:
+            ctx.undecided("R-C32.5", key, f.where, str(e))
+            per_func.setdefault(f.qualname, []).append(False)
+            continue
+        ctx.check(not bad, "R-C32.5", key, f.where, {"counterexamples": bad},
+                  f"`{nm}(…, name=value)` is recognised by this function and accepted without ever looking at the keyword arguments: they are silently dropped")
+        per_func.setdefault(f.qualname, []).append(True)
+    return {q for q, oks in per_func.items() if all(oks)}
+
+
 def run(ctx: Ctx) -> None:
     idx = ctx.idx
     n_sites = 0
+    semantic = run_semantic(ctx)
     for f in idx.iter_funcs(("guppylang_internals", "guppylang")):
+        if f.qualname in semantic:
+            continue  # decided by interpretation above
         accepting: list[tuple[str, list[ast.stmt]]] = []  # (form name, statements executed when the form is recognised)
         for n in walk_no_nested(f.node):
             if isinstance(n, ast.Match):
@@ -88,4 +146,5 @@ def run(ctx: Ctx) -> None:
                       {"form": form, "keyword_reading_nodes": len(kw_nodes), "accepting_nodes_that_bypass_them": len(bad)},
                       f"`{form.split('/')[0]}(…, name=value)` is recognised by this function and accepted without ever looking at the keyword "
                       f"arguments: they are silently dropped")
-    ctx.floor("R-C32.5", "special-form call arms", n_sites, 4)
+    if len(semantic) < 2:
+        ctx.floor("R-C32.5", "special-form call arms", n_sites, 4)
